@@ -431,7 +431,13 @@ class Process(Event[V]):
         interrupts = self._interrupts
         env = self.env
         env.active_process = self
-        self.target = event = generator.send(None)  # type: Event
+        try:
+            self.target = event = generator.send(None)  # type: Event
+        except StopIteration as err:
+            # the process finished without ever waiting for an event
+            env.active_process = None
+            self.succeed(err.args[0] if err.args else None)
+            return
         env.active_process = None
         while True:
             event = await self._wait_interruptible(event, interrupts)
